@@ -85,6 +85,18 @@ def main():
         open(os.path.join(dst, "patch.diff"), "w").write(newpatch)
     if os.path.abspath(demo) != os.path.abspath(os.path.join(dst, "demo.py")):
         shutil.copy(demo, os.path.join(dst, "demo.py"))
+    # what the check said the FIRST time this change was evaluated is kept across re-evaluations
+    first = None
+    old_meta_path = os.path.join(dst, "meta.json")
+    if os.path.exists(old_meta_path):
+        try:
+            om = json.load(open(old_meta_path))
+            first = om.get("first_evaluation")
+            if first is None and "caught" in om:
+                first = {"caught": om["caught"], "caught_with_concrete_input": om.get("caught_with_concrete_input"),
+                         "check_lines": om.get("check_lines", [])}
+        except Exception:
+            first = None
     meta = {}
     if os.path.exists(os.path.join(src, "meta.json")):
         try:
@@ -136,6 +148,9 @@ def main():
         "caught_with_concrete_input": crc == 1 and any(l.startswith("VIOLATION") and "no-failing-input-found" not in l for l in lines),
         "replays": replays,
     })
+    meta["first_evaluation"] = first if first is not None else {
+        "caught": meta["caught"], "caught_with_concrete_input": meta["caught_with_concrete_input"],
+        "check_lines": meta["check_lines"]}
     json.dump(meta, open(os.path.join(dst, "meta.json"), "w"), indent=1)
     print("check exit", crc)
     print("\n".join(lines)[:1500])
